@@ -6,7 +6,8 @@ package recover
 // code). Comment-only: no code; visible only with the build tag "verif".
 //
 //@ func (*Recover).EndPost
-//@   property C01 C02 C03 C05 C06 C18
+//@   property C01 C02 C03 C05 C06 C18 C17
+//@   ensures[C17] no_secret_leak: secrets_clean
 //@   -- C05: the password is only changed on the strength of a token that decodes to
 //@   -- exactly 64 bytes whose first half selects the account and whose second half
 //@   -- hashes to the stored verifier, before the stored expiry
@@ -39,7 +40,8 @@ package recover
 //@   ensures[C18] load_error_outcome: each Store.LoadByRecoverSelector(_) -> (_, ?e) => (e != nil && e != ErrUserNotFound) ==> (result == e && !emits Store.Save(_))
 //@
 //@ func (*Recover).StartPost
-//@   property C05 C16 C18
+//@   property C05 C16 C18 C17
+//@   ensures[C17] no_secret_leak: secrets_clean
 //@   -- a new recovery request overwrites selector, verifier and expiry with fresh ones
 //@   ensures[C05] reissue_overwrites: each Store.Save(?s) -> _ =>
 //@       (emits Rand.Read(?raw) -> ?re :: re == nil && len(raw) == 64 &&
